@@ -346,3 +346,21 @@ func storeOpsOf(p *Program) []string {
 	}
 	return out
 }
+
+func printSpecs() {
+	type out struct {
+		ID          string            `json:"id"`
+		Level       string            `json:"level"`
+		Explanation string            `json:"explanation"`
+		NotDecided  []string          `json:"not_decided"`
+		Assumptions []string          `json:"assumptions"`
+		Rules       map[string]string `json:"rules"`
+	}
+	var all []out
+	for _, id := range propertyIDs() {
+		s := registry[id]
+		all = append(all, out{s.ID, s.Level, s.Explanation, s.NotDecided, s.Assumptions, s.Rules})
+	}
+	b, _ := json.MarshalIndent(all, "", " ")
+	fmt.Println(string(b))
+}
